@@ -47,6 +47,14 @@ func evoScenarios(sup *schema.Support) []evoScenario {
 	n := base("EvDepNew")
 	n.Fields = append(n.Fields, schema.Field{Name: "c", Index: 3, Type: schema.P("int32")})
 	out = append(out, evoScenario{"Dep", o, n})
+	// the reader's version has no field that is ever written: empty, or every field deprecated
+	mk := func(name string, fields ...schema.Field) *schema.Record {
+		return &schema.Record{Kind: schema.Message, Name: name, Support: true, Label: "message:evolved", Fields: fields}
+	}
+	out = append(out, evoScenario{"Empty", mk("EvEmptyOld"),
+		mk("EvEmptyNew", schema.Field{Name: "a", Index: 1, Type: schema.P("int32")}, schema.Field{Name: "s", Index: 2, Type: schema.P("string")})})
+	out = append(out, evoScenario{"AllDep", mk("EvAllDepOld", schema.Field{Name: "s", Index: 1, Type: schema.P("string"), Deprecated: true}),
+		mk("EvAllDepNew", schema.Field{Name: "s", Index: 1, Type: schema.P("string")})})
 	return out
 }
 
